@@ -147,6 +147,7 @@ func checkC11(p *load.Program, r *kit.Report) {
 	r.Rule("CONST-TABLE", "headerDataSerializeSize equals 80 (wire block header) + 32 (work) and is the record size used by getData, loadHistoricalHashHeights and saveMainBranch's byte offset", 2)
 	r.Rule("HEIGHT-LABEL", "labels written while loading (LoadBranch, Reload, loadBranchHashHeights, loadHistoricalHashHeights) equal positional heights", 4)
 	r.Rule("MUST-PASS", "saveInvalidHashes writes its key on every successful path (an emptied list replaces the stored one)", 1)
+	r.Rule("MAIN-FILE-SHAPE", "saveMainBranch starts in file lowest/headersPerFile at byte (lowest - file·headersPerFile)·recordSize + 1 (version byte), keeps exactly that prefix of the stored file, rolls over to file+1 every headersPerFile heights; readers (C09) use the same constants", 3)
 	r.Rule("MERGE-SHAPE", "Branch.Save stores previous.headers[:b.offset-previous.offset] ++ b.headers (all in-memory headers) and writes on every successful path; Save runs saveMainBranch, saveBranches, saveInvalidHashes each behind the previous success; saveInvalidHashes always writes; load merges the configured invalid hashes behind a not-found test", 5)
 
 	hd := func(n string) *ssa.Function { return fn(p, r, "CODEC-SYM", H, n) }
@@ -234,6 +235,7 @@ func checkC11(p *load.Program, r *kit.Report) {
 	}
 
 	checkBranchSave(p, r)
+	checkSaveMainBranch(p, r)
 	if f := fn(p, r, "MERGE-SHAPE", H, "Repository.Save"); f != nil {
 		orderedBehindSuccess(p, r, "MERGE-SHAPE", f, "Save", H+".Repository.saveMainBranch", H+".Repository.saveBranches", H+".saveInvalidHashes")
 	}
@@ -519,4 +521,98 @@ func checkC12(p *load.Program, r *kit.Report) {
 		}
 		r.Check(okL, "TOLERATE", "load/recompute-longest", posOf(p, f.Blocks[0].Instrs[0]), "tip recomputed with Longest() over the loaded branches", "load does not recompute the most-work branch from what it read")
 	}
+}
+
+func checkSaveMainBranch(p *load.Program, r *kit.Report) {
+	f := fn(p, r, "MAIN-FILE-SHAPE", H, "Repository.saveMainBranch")
+	if f == nil {
+		return
+	}
+	pos := posOf(p, f.Blocks[0].Instrs[0])
+	sc := p.All[H].Types.Scope()
+	perC, _ := sc.Lookup("headersPerFile").(*types.Const)
+	recC, _ := sc.Lookup("headerDataSerializeSize").(*types.Const)
+	per, ok1 := kit.ConstFromTypes(perC)
+	rec, ok2 := kit.ConstFromTypes(recC)
+	if !ok1 || !ok2 {
+		r.Unknown("MAIN-FILE-SHAPE", "saveMainBranch/constants", pos, "constants not found")
+		return
+	}
+	lin := kit.NewLin(f)
+	longestF := p.Field(H, "Repository", "longest")
+	var lowest kit.Lin
+	for _, c := range kit.CallsTo(f, H+".Branch.PrunedLowestHeight") {
+		if recvIsField(c.Common().Args[0], longestF) {
+			lowest = lin.Of(c.(*ssa.Call))
+		}
+	}
+	paths := kit.CallsTo(f, H+".headersFilePath")
+	bad := ""
+	fileAtom := fmt.Sprintf("(%s)/(%d)", lowest.String(), per)
+	if !lowest.OK || len(paths) == 0 {
+		bad = "start height (repo.longest.PrunedLowestHeight()) or file path not found"
+	} else {
+		first := paths[0]
+		for _, c := range paths {
+			if c.Block().Dominates(first.Block()) {
+				first = c
+			}
+		}
+		if got := lin.Of(first.Common().Args[0]); !got.Equal(kit.LinAtom(fileAtom)) {
+			bad = "first file index is " + got.String() + ", want lowest/" + fmt.Sprint(per)
+		}
+	}
+	r.Check(bad == "", "MAIN-FILE-SHAPE", "saveMainBranch/first-file", pos, "file = PrunedLowestHeight()/headersPerFile", bad)
+	// kept prefix of the stored file
+	bad = "the stored file's prefix is not kept when the branch starts inside a file"
+	kit.AllInstrs(f, func(in ssa.Instruction) {
+		sl, ok := in.(*ssa.Slice)
+		if !ok || sl.High == nil || sl.Low != nil {
+			return
+		}
+		if e, ok := kit.Strip(sl.X).(*ssa.Extract); !ok || e.Index != 0 {
+			return
+		}
+		want := lowest.Sub(kit.LinAtom(fileAtom).Scale(per)).Scale(rec).AddK(1)
+		if got := lin.Of(sl.High); got.Equal(want) {
+			bad = ""
+		} else {
+			bad = "prefix kept is " + got.String() + " bytes, want (lowest - file·" + fmt.Sprint(per) + ")·" + fmt.Sprint(rec) + " + 1"
+		}
+	})
+	r.Check(bad == "", "MAIN-FILE-SHAPE", "saveMainBranch/kept-prefix", pos, "data[:(lowest-fileHeight)·recordSize+1]", bad)
+	// rollover: next file every `per` heights, file+1
+	bad = ""
+	sawNext, sawFile := false, false
+	kit.AllInstrs(f, func(in ssa.Instruction) {
+		b, ok := in.(*ssa.BinOp)
+		if !ok || b.Op != token.ADD || len(cycleOf(b.Block())) == 0 {
+			return
+		}
+		if _, isPhi := b.X.(*ssa.Phi); !isPhi {
+			return
+		}
+		k, ok := kit.ConstInt(b.Y)
+		if !ok {
+			return
+		}
+		// used as argument of headersFilePath → file index step; compared with height+1 → boundary
+		for _, ref := range *b.Referrers() {
+			if c, ok := ref.(*ssa.Call); ok && kit.CallID(c) == H+".headersFilePath" {
+				sawFile = true
+				if k != 1 {
+					bad = "file index advances by " + fmt.Sprint(k)
+				}
+			}
+		}
+		if k == per {
+			sawNext = true
+		} else if k != 1 {
+			bad = fmt.Sprintf("a loop counter advances by %d, neither 1 nor headersPerFile", k)
+		}
+	})
+	if bad == "" && !(sawNext && sawFile) {
+		bad = "no rollover to the next file every headersPerFile heights"
+	}
+	r.Check(bad == "", "MAIN-FILE-SHAPE", "saveMainBranch/rollover", pos, "file+1 and boundary+headersPerFile at each file end", bad)
 }
